@@ -48,6 +48,7 @@ from src.core.registry import RuleRegistry
 from src.core.types import Violation
 from src.linter_config.ignore import get_ignore_parser
 from src.linter_config.loader import LinterConfigLoader
+from src.linter_config.pattern_utils import matches_pattern
 
 from .language_detector import detect_language
 
@@ -286,7 +287,7 @@ class Orchestrator:  # thailint: ignore[srp]
         if _is_hardcoded_excluded(file_path):
             return []
 
-        if self.ignore_parser.is_ignored(file_path):
+        if self.ignore_parser.is_ignored(file_path) or self._is_ignored_by_config(file_path):
             return []
 
         language = detect_language(file_path)
@@ -297,6 +298,21 @@ class Orchestrator:  # thailint: ignore[srp]
         context = FileLintContext(file_path, language, metadata=metadata)
 
         return self._execute_rules(rules, context)
+
+    def _is_ignored_by_config(self, file_path: Path) -> bool:
+        """Check the top-level ``ignore`` list of the loaded configuration.
+
+        The ignore parser only reads .thailintignore / .thailint.yaml from the project root;
+        the same list given in .thailint.json, pyproject.toml or a --config file is honoured here.
+        """
+        patterns = self.config.get("ignore") if isinstance(self.config, dict) else None
+        if not isinstance(patterns, list) or not patterns:
+            return False
+        try:
+            check_path = str(file_path.relative_to(self.project_root))
+        except ValueError:
+            check_path = str(file_path)
+        return any(matches_pattern(check_path, str(pattern)) for pattern in patterns)
 
     def lint_files(self, file_paths: list[Path]) -> list[Violation]:
         """Lint multiple files.
@@ -417,6 +433,8 @@ class Orchestrator:  # thailint: ignore[srp]
         metadata = {**self.config, "_project_root": self.project_root}
         for file_path in file_paths:
             if _is_hardcoded_excluded(file_path) or self.ignore_parser.is_ignored(file_path):
+                continue
+            if self._is_ignored_by_config(file_path):
                 continue
             context = FileLintContext(file_path, detect_language(file_path), metadata=metadata)
             self._execute_rules(cross_file_rules, context)
